@@ -253,6 +253,10 @@ class IfGen:
                             continue
                         cnt = min(cnt, max(0, 62 - a.val.bit_length()))
                     b = V(str(cnt), cnt, False, 16)
+                    if cnt >= 2 and r.random() < 0.35:
+                        # a << 1 + 2: the count is an additive expression (binds tighter than the shift)
+                        k = r.randrange(1, cnt)
+                        b = self.binary("+", V(str(k), k, False, 16), V(str(cnt - k), cnt - k, False, 16)) or b
                     n = self.binary(op, a, b)
                 elif op in ("&&", "||") and r.random() < 0.3:
                     want = op == "||"
